@@ -260,8 +260,15 @@ def far_medium(ck, sh, mm, gname, boundary):
             h3 = SR.var('h3')
             c.assume(z3.And(h3.n >= -10, h3.n <= 0))
             U = SR.var('U')
-            # beyond every reflection point of this direction: |reflection point| <= |x| + |y| + z tan(theta) < 40 for the catalogue
-            c.assume(z3.And(U.n >= 40, U.n <= 1e5))
+            # beyond every reflection point of this direction, computed here from the geometry alone: a point at height z is reflected at
+            # the horizontal distance z tan(theta) in the direction of the azimuth (one part in 1e6 added)
+            m0 = catalogue.build(mm, gname)
+            pts = [np.asarray(p.point, dtype=float) for p in m0.pulses]          # the reflection is evaluated per pulse, at its point
+            tt, cp, sp_ = math.tan(math.radians(th)), math.cos(math.radians(ph)), math.sin(math.radians(ph))
+            refl = [(q[0] + q[2] * tt * cp, q[1] + q[2] * tt * sp_) for q in pts]
+            lim = max((math.hypot(*r_) if boundary == 'circular' else r_[0]) for r_ in refl)
+            lim = max(lim * (1 + 1e-6) + 1e-9, 0.5 * (1 + 1e-6))
+            c.assume(z3.And(U.n >= core.RV(lim), U.n <= 1e5))
             ma = catalogue.build(M, gname, media=media_list(M, [GROUNDS[0] + (0.5,), GROUNDS[1] + (None,)], boundary))
             mb = catalogue.build(M, gname, media=media_list(M, [GROUNDS[0] + (0.5,), GROUNDS[1] + (U,), (e3, s3, h3, None)], boundary))
             n = len(ma.pulses)
